@@ -67,24 +67,25 @@ CLAIMED = {
 
 # clauses added in build round 2 (appended to the technique text of the property)
 ADDENDA = {
- "C06": "; memo-key rule (an entry written on the miss branch of a lookup uses the key of that lookup); every-iteration rule for the per-token posting sources; per-element provenance of the aggregation interval",
+ "C08": "; no file is created under a name the loader takes for a completed seal",
+ "C06": "; memo-key rule (an entry written on the miss branch of a lookup uses the key of that lookup); every-iteration rule for the per-token posting sources; per-element provenance of the aggregation interval; read/maintained pairing of every aggregator counter",
  "C01": "; lockset rule that the docs write and the meta write of one bulk share one hold of the writer mutex; publication order of the index worker (stats before the wait group is released); shared rules on the duplicate filter's columns and on truncating only a log that was read to io.EOF",
- "C02": "; comparator pairing (whoever orders by MID also compares RID) in the active posting-list merge; idiom rule for the second binary search of the LID window; provenance rule that the pooled LID-inversion table is cleared before it is filled; the fraction order is keyed on what the early-stop cut reads; mirror-sibling rule for the sealed posting-list iterators shared with C03",
- "C03": "; mirror-sibling rule for the ascending/descending posting-list iterators (the block walk ends only on the bound ahead of it); alias analysis that nothing reachable from a pooled block writer survives its return to the pool; checked-before-use rule for binary-search results used as bounds; provenance rule that the dictionary block bounds reach the index file and come back untruncated and copied",
- "C04": "; alias/mutation-sink analysis of the request's id list inside the fetcher; shared rules: a failed block read is not cached, and the occupancy map has a bit for every document",
+ "C02": "; comparator pairing (whoever orders by MID also compares RID) in the active posting-list merge; idiom rule for the second binary search of the LID window; provenance rule that the pooled LID-inversion table is cleared before it is filled; the fraction order is keyed on what the early-stop cut reads; mirror-sibling rule for the sealed posting-list iterators shared with C03; the dedup comparand of the posting-list merge is loop-carried and updated",
+ "C03": "; mirror-sibling rule for the ascending/descending posting-list iterators (the block walk ends only on the bound ahead of it); alias analysis that nothing reachable from a pooled block writer survives its return to the pool; checked-before-use rule for binary-search results used as bounds; provenance rule that the dictionary block bounds reach the index file and come back untruncated and copied; polarity-aware justification of the iterators' end-of-walk",
+ "C04": "; alias/mutation-sink analysis of the request's id list inside the fetcher; shared rules: a failed block read is not cached, and the occupancy map has a bit for every document; parallel-results rule for the per-fraction id groups",
  "C05": "; key rule for the repetition test of the result merge (document id only); every-iteration (back-edge dominance) rule for the occupancy map; independent running-extrema rule for the fraction borders; tie-break direction shared with C02",
- "C07": "; read-modify-write-in-one-hold rule for every guarded field; snapshot order in TokenLIDs.GetLIDs; pooled-writer alias rule shared with C03; publish/snapshot order of the token dictionary",
- "C09": "; provenance of the per-bulk write status (created per call or reset before use); a recovered panic is returned through a named error result",
- "C10": "; no reader activity between reading the document line and returning its view; provenance of the delay handed to the drift check (the request's own time); no fall-through success of the store client (shared with C09); pooled buffers are reset on every hand-out path",
- "C11": "; append-to-view rule extended to the indexer (append-style APIs recognised); no predicate on the rune gates the case-mapping call; raw strings are taken verbatim; a case predicate handed over as a function value gates the mapping all the same",
+ "C07": "; read-modify-write-in-one-hold rule for every guarded field; snapshot order in TokenLIDs.GetLIDs; pooled-writer alias rule shared with C03; publish/snapshot order of the token dictionary; strictness of every length guard that protects an element read",
+ "C09": "; provenance of the per-bulk write status (created per call or reset before use); a recovered panic is returned through a named error result; use-after-put typestate over discovered release functions",
+ "C10": "; no reader activity between reading the document line and returning its view; provenance of the delay handed to the drift check (the request's own time); no fall-through success of the store client (shared with C09); pooled buffers are reset on every hand-out path; format ranges of the hand-written time parser; skip-to-end-of-line loop of the bulk reader",
+ "C11": "; append-to-view rule extended to the indexer (append-style APIs recognised); no predicate on the rune gates the case-mapping call; raw strings are taken verbatim; a case predicate handed over as a function value gates the mapping all the same; ASCII capital table covers A..Z; the quote byte given to UnquoteChar is the literal's own",
  "C12": "; conditional constant propagation with input partitioning (FINITE) recovering the negation push-down table of propagateNot and comparing every cell with the truth table of the input; constant-index reads of the input text dominated by a length test; cursor typestate of the legacy parser (read/advance only after eof() answered false since the position changed, callee requirements to a fixed point); dominance rule that unquotePrefix succeeds after its scanning loop only with input left; word characters of text terms shared with C11",
- "C13": "; type-switch dominance rule for the dictionary pre-selection hint (literals only); exact-length cut of the block bounds; no spelling test before the numeric parse; no-truncation / no-view provenance of the dictionary block bounds",
- "C14": "; evidence rule for the constant-true answers of the sealed LID-border predicate; every-iteration rule for the occupancy map; the fetch window is read after the sort; independent running-extrema rule for min/max border pairs",
- "C15": "; the loader's decision walk inlines its private helpers; a SKIP outcome never finishes a deletion; a sealed fraction with both .docs and .sdocs left is checked against the file Sealed.openDocs prefers; composition of Active.Release with a concurrent Sealed.Suicide (all interleavings and crash prefixes) under a premise read from proxyFrac.Seal/Suicide; measure pairing of the retention total and its decrements; truncation only at io.EOF",
- "C16": "; every return of the per-store stream iterator is dominated by that call's Recv; the stream handed out is the position-keeping merged iterator; OldestCT is computed from the fractions that remain; one response slot per id (every iteration, no early exit)",
- "C17": "; alias/mutation-sink analysis of SetMultiple's parameters; the per-fraction fetch loop is left early only when the context is done; non-strict cut shared with C05",
+ "C13": "; type-switch dominance rule for the dictionary pre-selection hint (literals only); exact-length cut of the block bounds; no spelling test before the numeric parse; no-truncation / no-view provenance of the dictionary block bounds; each parsed range bound is the one validated",
+ "C14": "; evidence rule for the constant-true answers of the sealed LID-border predicate; every-iteration rule for the occupancy map; the fetch window is read after the sort; independent running-extrema rule for min/max border pairs; a border mask is applied to its own border byte only; iterator end-of-walk rule shared with C03",
+ "C15": "; the loader's decision walk inlines its private helpers; a SKIP outcome never finishes a deletion; a sealed fraction with both .docs and .sdocs left is checked against the file Sealed.openDocs prefers; composition of Active.Release with a concurrent Sealed.Suicide (all interleavings and crash prefixes) under a premise read from proxyFrac.Seal/Suicide; measure pairing of the retention total and its decrements; truncation only at io.EOF; per-suffix symbolic walk of the loader's file-name classification; test-and-set order of the released flag",
+ "C16": "; every return of the per-store stream iterator is dominated by that call's Recv; the stream handed out is the position-keeping merged iterator; OldestCT is computed from the fractions that remain; one response slot per id (every iteration, no early exit); an unknown (zero) oldest creation time counts as earlier",
+ "C17": "; alias/mutation-sink analysis of SetMultiple's parameters; the per-fraction fetch loop is left early only when the context is done; non-strict cut shared with C05; token offsets are summed from the collector's own column",
  "C18": "; read-modify-write-in-one-hold rule for the cleaner's bucket list; generations are handed to buckets under the cleaner lock",
- "C19": "; unconditional copy of every aggregation bin into the persisted form; classification rule for per-replica errors in the proxy's fetch of an asynchronous result; the request state is read before the partial-result files are listed; only a comparison with the constant NotFound lets the replica loop continue; type-level admissibility of what is decoded from JSON; a searched fraction always leaves its partial-result file",
+ "C19": "; unconditional copy of every aggregation bin into the persisted form; classification rule for per-replica errors in the proxy's fetch of an asynchronous result; the request state is read before the partial-result files are listed; only a comparison with the constant NotFound lets the replica loop continue; type-level admissibility of what is decoded from JSON; a searched fraction always leaves its partial-result file; the fraction loop of a resumed search has no early exit towards done",
  "C20": "; who-may-compare rule for the lexer's token text (keywords only through the lexer's own tests); sibling rule that every reader of the use-seq-ql header also reads the configured default; no escaping unsafe view of a recycled byte buffer (recycled fields are discovered); exclusive ownership of the pooled decoder",
 }
 
